@@ -220,6 +220,10 @@ func c18EmptyPath(c *Ctx, n int) {
 		case pn != "":
 			res.Add(Finding{Kind: "violation", What: "ez entry point panicked: " + pn, Case: cs})
 		case err == nil && d != nil:
+			// ConfigPath said "there is a file": the path it named (the empty one) is read like any other path, and
+			// cannot be - the entry point fails as for every missing / unreadable file, it does not quietly go on
+			// without a file
+			res.Add(Finding{Kind: "violation", What: "ConfigPath returned (\"\", true) - a file is named, and it is unreadable - but the ez entry point succeeded as if there were no file", Case: cs, Observed: fmt.Sprintf("%+v", *d.View())})
 			if calls == 0 {
 				res.Add(Finding{Kind: "violation", What: "ez returned a Dials without ever calling Verify: the verification it delayed was never switched on", Case: cs})
 			} else if verr := d.View().Verify(); verr != nil {
